@@ -466,7 +466,7 @@ def run(ck):
     dw1 = km.datasets(4, 1, vals1)
     hrecs += whit_run(ck, "whitening-1d", 4, 1, rng.sample(dw1, 30) if quick else dw1, coverage=cov)
     nw = 5 if quick else 6
-    dw2 = rng.sample(km.datasets(nw, 2, vals2), 200 if quick else 1500)
+    dw2 = rng.sample(km.datasets(nw, 2, vals2), 200 if quick else 700)
     hrecs += whit_run(ck, "whitening-2d", nw, 2, dw2, coverage=cov)
     # the smallest full-rank training sets: n = d + 1 samples in general position (and one more)
     for nb, db, vb in ((2, 1, vals1), (3, 1, vals1), (3, 2, vals2 + [5]), (4, 2, vals2)):
@@ -484,12 +484,12 @@ def run(ck):
     wr = WccnReplay(ck, em, rng)
     if quick and len(wrecs) > 3000:
         wrecs = rng.sample(wrecs, 3000)
-    n_dask = 50 if quick else 900
+    n_dask = 50 if quick else 400
     dask_idx = set(rng.sample(range(len(wrecs)), min(n_dask, len(wrecs))))
     for i, rec in enumerate(wrecs):
         wr.one(rec, i in dask_idx)
     wr.report()
-    n_dask_w = 60 if quick else 600
+    n_dask_w = 60 if quick else 300
     dask_idx = set(rng.sample(range(len(hrecs)), min(n_dask_w, len(hrecs))))
     for i, rec in enumerate(hrecs):
         replay_whitening(ck, em, rec, rng, i in dask_idx)
